@@ -232,7 +232,13 @@ func genScenario(o world.Opts) *Scenario {
 	np := simrt.ChoiceBias("plugins.n", 4, 0.1)
 	faultP := []float64{0, 0.08, 0.25}[simrt.Choice("plugins.fault-rate", 3)]
 	for i := 0; i < np; i++ {
-		sc.Plugins = append(sc.Plugins, genScript([]string{"plgalpha", "plgbeta", "plggamma"}[i], faultP, i))
+		// plugin names are file-name material: now and then one with characters that mean
+		// something to fmt, to a shell or to a path
+		name := []string{"plgalpha", "plgbeta", "plggamma"}[i]
+		if simrt.Flip("plugin.odd-name", 0.15) {
+			name = []string{"plg%sx", "50%off", "plg.v2", "plg_%d%v", "plg+x"}[simrt.Choice("plugin.odd-name-pick", 5)] + fmt.Sprint(i)
+		}
+		sc.Plugins = append(sc.Plugins, genScript(name, faultP, i))
 		sc.Plugins[i].ModSuffix = "/" + sc.Prog.Files[0].RelPath()
 	}
 	if o.Prop == "C17" {
